@@ -578,6 +578,12 @@ pub fn is_decrease(k: OrderKind) -> bool {
 }
 
 pub fn create_order_tx(d: &Dep, a: &OrderArgs) -> (Vec<Instruction>, Pubkey, Option<Pubkey>) {
+    create_order_tx_opts(d, a, false)
+}
+
+/// `init_final_output_for_increase`: also initialise the (optional) final-output-token escrow of an
+/// increase order — the account a builder fee is paid out of.
+pub fn create_order_tx_opts(d: &Dep, a: &OrderArgs, init_final_output_for_increase: bool) -> (Vec<Instruction>, Pubkey, Option<Pubkey>) {
     let m: &MarketInfo = &d.markets[a.market];
     let order = order_pda(d, &a.owner, &a.nonce);
     let long = d.tokens[m.long].mint;
@@ -610,7 +616,7 @@ pub fn create_order_tx(d: &Dep, a: &OrderArgs) -> (Vec<Instruction>, Pubkey, Opt
     if let Some(t) = initial {
         ixs.push(create_ata_ix(&a.owner, &order, &t));
     }
-    if dec || swap {
+    if dec || swap || (inc && init_final_output_for_increase) {
         ixs.push(create_ata_ix(&a.owner, &order, &final_out));
         ixs.push(create_ata_ix(&a.owner, &a.owner, &final_out));
     }
@@ -634,7 +640,7 @@ pub fn create_order_tx(d: &Dep, a: &OrderArgs) -> (Vec<Instruction>, Pubkey, Opt
             long_token: (inc || dec).then_some(long),
             short_token: (inc || dec).then_some(short),
             initial_collateral_token_escrow: initial.map(|t| ata(&order, &t)),
-            final_output_token_escrow: (dec || swap).then(|| ata(&order, &final_out)),
+            final_output_token_escrow: (dec || swap || (inc && init_final_output_for_increase)).then(|| ata(&order, &final_out)),
             long_token_escrow: (inc || dec).then(|| ata(&order, &long)),
             short_token_escrow: (inc || dec).then(|| ata(&order, &short)),
             initial_collateral_token_source: initial.map(|t| ata(&a.owner, &t)),
